@@ -231,5 +231,23 @@ Fixpoint qs_body (x : str) : bool :=
 Definition quoted_strict (t : str) : bool :=
   match t with c :: r => Ascii.eqb c DQ && qs_body r | [] => false end.
 
-(** NIL or one quoted string *)
-Definition nstring_ok (t : str) : bool := str_eqb t (S_ "NIL") || quoted_strict t.
+(** [t] is exactly ONE literal: {n}CRLF followed by exactly n octets *)
+Definition literal_strict (t : str) : bool :=
+  match t with
+  | c :: r =>
+      Ascii.eqb c LB &&
+      (let '(ds, r') := span_digits r [] in
+       match ds with
+       | [] => false
+       | _ => has_prefix r' (RB :: crlf)
+              && N.eqb (N.of_nat (length (skipn 3 r')))
+                       (fold_left (fun a d => (10 * a + (byte_of d - 48))%N) ds 0%N)
+       end)
+  | [] => false
+  end.
+
+(** a string: one quoted string or one literal *)
+Definition string_ok (t : str) : bool := quoted_strict t || literal_strict t.
+
+(** NIL or a string *)
+Definition nstring_ok (t : str) : bool := str_eqb t (S_ "NIL") || string_ok t.
